@@ -628,7 +628,7 @@ func (d *Driver) after(ev *Event) *Event {
 				d.Acks++
 				m.rec.Status, m.rec.AckIdx = WAcked, d.Acks
 				if d.AckCheck {
-					d.checkBlobReplicas(d.Blobs[m.blob])
+					d.checkBlobReplicas(d.Blobs[m.blob], true)
 				}
 			} else {
 				m.rec.Status = WFailed
@@ -744,11 +744,14 @@ func (d *Driver) checkClientRead(m *opMeta, res OpResult) {
 // ("whichever replica answers").
 func (d *Driver) CheckAllReplicas() {
 	for _, b := range d.Blobs {
-		d.checkBlobReplicas(b)
+		d.checkBlobReplicas(b, false)
 	}
 }
 
-func (d *Driver) checkBlobReplicas(b *BlobState) {
+// checkBlobReplicas: fromSnap = judge the content the last dump of the server shows (run-length encoded, kept
+// current after every event) instead of reading the whole tract; the server is still asked, with a one-byte
+// read at the view's version, whether it would answer.
+func (d *Driver) checkBlobReplicas(b *BlobState, fromSnap bool) {
 	{
 		ext := b.O.Extent()
 		if ext == 0 {
@@ -797,11 +800,24 @@ func (d *Driver) checkBlobReplicas(b *BlobState) {
 			}
 			for _, v := range views {
 				for _, h := range v.hosts {
-					data, err := d.Cl.TS[h].Read(tid, v.version, int(hi-lo), 0)
-					if err != core.NoError && err != core.ErrEOF {
-						continue
+					var bads []Bad
+					if fromSnap {
+						if _, err := d.Cl.TS[h].Read(tid, v.version, 1, 0); err != core.NoError && err != core.ErrEOF {
+							continue
+						}
+						rep, ok := d.Snap.TS[h][tid]
+						if !ok {
+							continue
+						}
+						bads = b.O.CheckRuns(v.who, lo, hi-lo, rep.Runs, v.tau)
+					} else {
+						data, err := d.Cl.TS[h].Read(tid, v.version, int(hi-lo), 0)
+						if err != core.NoError && err != core.ErrEOF {
+							continue
+						}
+						bads = b.O.CheckRead(v.who, lo, int(hi-lo), data, v.tau)
 					}
-					for _, bad := range b.O.CheckRead(v.who, lo, int(hi-lo), data, v.tau) {
+					for _, bad := range bads {
 						bad.Detail["ts"] = h
 						bad.Detail["version"] = v.version
 						bad.Detail["blob"] = b.Idx
@@ -905,6 +921,11 @@ func (d *Driver) Burst(n int) {
 	d.Cl.S.SetAuto(false)
 	for i := 0; i < n && len(d.Blobs) > 0; i++ {
 		b := d.Blobs[d.R.Intn(len(d.Blobs))]
+		if d.Wide && d.R.Chance(1, 8) {
+			// the cache is soft state: a client may lose a blob's entries at any time (eviction, restart)
+			blb.VerifInvalidate(d.Cl.Cli[d.R.Intn(len(d.Clients))], b.ID)
+			vw.Stat("wide.cache_dropped", 1)
+		}
 		if d.R.Chance(2, 5) && d.NextWid < 240 {
 			if d.Clients[0].Busy != nil {
 				continue
